@@ -22,5 +22,7 @@ AsBuiltReport == AB => (PAll(v, out) \/ PrintT(<<"ABBAD", ToJson([v |-> v, claus
 AsBuiltHolds == AB => PAll(v, out)
 \* the intended transcription with the merged pool key: TLC must refute it (TlsRoute_keymerge.cfg)
 KeyMergeHolds == Claimed => PAll(v, out)
+SetterDropsHolds == Claimed => PAll(v, out)
+SetterDropsReport == Claimed => (PAll(v, out) \/ PrintT(<<"SDBAD", ToJson([v |-> v, clause |-> FailedClause(v, out)])>>))
 KeyMergeReport == Claimed => (PAll(v, out) \/ PrintT(<<"KMBAD", ToJson([v |-> v, clause |-> FailedClause(v, out)])>>))
 =============================================================================
